@@ -545,10 +545,10 @@ def run(tier: str, seed: int) -> dict:
 
     def guarded(label, fn, *args):
         try:
-            with watchdog(10):
+            with watchdog(3 if quick else 10):
                 fn(*args)
         except Timeout:
-            stats["errors"][f"skipped at the 10 s watchdog: {label}"] = stats["errors"].get(f"skipped at the 10 s watchdog: {label}", 0) + 1
+            stats["errors"][f"skipped at the watchdog: {label}"] = stats["errors"].get(f"skipped at the watchdog: {label}", 0) + 1
         except Exception as ex:  # a crash of one case must not stop the exploration
             stats["errors"][f"case crashed: {label}: {type(ex).__name__}"] = stats["errors"].get(f"case crashed: {label}: {type(ex).__name__}", 0) + 1
 
